@@ -54,9 +54,26 @@ func ShutdownScenario(t *rapid.T) sim.Scenario {
 				step = sim.Step{Op: "release", K: k, Out: pick(t, "outcome", []string{"ok", "err:-32000", "ctxerr"})}
 			case roll < 33:
 				pushes++
-				step = sim.Step{Op: "push", Push: pick(t, "pushkind", []string{"notify", "callback"}), K: pushes, D: pick(t, "deadline", []int{0, 0, 5000})}
+				step = sim.Step{Op: "push", Push: pick(t, "pushkind", []string{"notify", "callback"}), K: pushes, D: pick(t, "deadline", []int{0, 0, 5000, -1})}
 			case roll < 38 && len(st.LiveIDs) > 0:
 				step = sim.Step{Op: "cancel", ID: pick(t, "cancelid", st.LiveIDs)}
+			case roll < 46 && sc.Cfg.AllowPush:
+				// a handler (of a call or of a notification, whose context cannot end)
+				// that pushes and then parks
+				st.nextK++
+				k := st.nextK
+				st.Pending = append(st.Pending, k)
+				m := pick(t, "hpush", []string{"cbgate", "cbgate", "notegate"})
+				if rapid.Bool().Draw(t, "asnote") {
+					st.IDOf[k] = ""
+					step = sim.Step{Op: "send", Rec: engine.Bytes(fmt.Sprintf(`{"jsonrpc":"2.0","method":%q,"params":{"k":%d}}`, m, k))}
+				} else {
+					st.nextID++
+					id := fmt.Sprint(st.nextID)
+					st.IDOf[k] = id
+					st.LiveIDs = append(st.LiveIDs, id)
+					step = sim.Step{Op: "send", Rec: engine.Bytes(fmt.Sprintf(`{"jsonrpc":"2.0","id":%s,"method":%q,"params":{"k":%d}}`, id, m, k))}
+				}
 			default:
 				step = sim.Step{Op: "send", Rec: engine.Bytes(st.Record(t, p))}
 			}
